@@ -772,8 +772,11 @@ RuntimeProfileSet(struct RuntimeProfile *RuntimeProfile,
 	    } else {
 		maxStateFormatLevel = ~0;
 	    }
-	    /* User has some control over StateFormatLevel */
-	    RuntimeProfile->stateFormatLevel = stateFormatLevelJSON;
+	    /* User has some control over StateFormatLevel; without one start at
+	     * the profile's minimum: commands and algorithms may raise it */
+	    RuntimeProfile->stateFormatLevel =
+		stateFormatLevelJSON != STATE_FORMAT_LEVEL_UNKNOWN ? stateFormatLevelJSON
+								   : rp->stateFormatLevel;
 	}
     } else {
 	/* JSON was from TPM 2 state */
